@@ -4,4 +4,4 @@ Require Import ExtrOcamlBasic.
 Extraction Language OCaml.
 Extraction "../ocaml/c07/model.ml" util_add util_mul util_divmod
   empty_membership m_get m_set m_is_empty handle_ascii address_equal_ascii
-  run_ascii observe kind_of cc_type_codes.
+  run_ascii sm_run_ascii sm_recover cc_reqs observe kind_of cc_type_codes.
